@@ -3,20 +3,34 @@ CHECKS["C07"] = dict(
    text="Theorems about the Lean models of qmail.c (flagerr discipline with substdio buffering and write faults), qmail_close's verdict switch (table regenerated from the source), "
         "received.c/date822fmt.c/datetime.c and the reply selection of qmail-smtpd/qmtpd/qmqpd: a flagged failure or an exit before qmail_close never leaves a complete envelope on qmail-queue's descriptor 1 "
         "(for every body, sender, recipient sequence and write-fault schedule); verdict \"\" iff exit 0, no crash, no flagerr, D exactly for 11..40/115/82+D for all exit statuses; 250/K iff verdict \"\" "
-        "(and sender ok, no overflow, flagok); 554 hops before 552 size before 554/451; the hop scanner of blast() equals, for every byte stream, the line-based count of header lines starting with "
-        "received/delivered in any case, and a count >= MAXHOPS gives 554 and no complete envelope for every queue outcome; datetime_tai is the proleptic Gregorian calendar for every integer instant "
-        "(independent days-from-civil round trip, uniqueness) with the exact range in which no C int overflows, and date822fmt renders it as D Mon YYYY HH:MM:SS -0000; safeput emits only issafe bytes or '?', "
-        "the Received field is exactly two lines. Tied to the current source by three whole-program harnesses (real daemons + real qmail.c, real pipe/fork/execv of a stand-in queue program) compared byte for byte "
-        "(replies, exit status, bytes on the queue program's descriptors 0 and 1) with the compiled models over every exit status 0..255, sizes around databytes, hops 97..102, address lengths around 900/1000, NULs, "
-        "every cut point and every single-byte substitution of short sessions, write faults, random mutated sessions, and by a fourth harness running the real datetime_tai/date822fmt on about 230000 instants "
+        "(and sender ok, no overflow, flagok) with the flags proved to be functions of the input: overflow iff databytes is in force and the decoded message is longer (SMTP, QMTP in both framings), senderok/flagok/failure bytes "
+        "from the netstring payloads; over the size limit / unacceptable sender / no accepted recipient / bad QMQP address imply a qmail_fail among the calls, hence a failure verdict for every queue outcome, no complete envelope and the "
+        "documented permanent reply, and conversely a complete envelope with exit 0 forces the acknowledgement; a message or request the daemon reads to the end is one of the independent strict netstring grammar and the envelope "
+        "recipients are exactly the payloads whose failure byte is 0, in order; for a whole QMTP connection the client's bytes are an order-preserving prefix of the replies of the completely read messages, each status computed from "
+        "its own record's verdict, K implying that record's pipes hold exactly the message, and a cut inside message k+1 leaves it neither acknowledged nor queued; 554 hops before 552 size before 554/451; the hop scanner of blast() "
+        "equals, for every byte stream, the line-based count of header lines beginning with received/delivered in any case (the code's prefix rule, see C05), and a count >= MAXHOPS gives 554 and no complete envelope for every queue outcome; datetime_tai is the proleptic Gregorian calendar for every integer instant "
+        "(independent days-from-civil round trip, uniqueness) with the exact range in which no C int overflows, and date822fmt renders it as D Mon YYYY HH:MM:SS -0000; issafe() (table regenerated from received.c) "
+        "is exactly the documented safe set (letters, digits, . @ % + / = : - [ ]), safeput is the specification's cleaning function, the Received field is byte for byte the specified one, exactly two lines, and a "
+        "well-formed RFC 822 field (printable ASCII, balanced comments, no backslash or quote, one fold) for every HELO/TCPREMOTE*/TCPLOCAL* string. "
+        "Tied to the current source by three whole-program harnesses (real daemons + real qmail.c, real pipe/fork/execv of a stand-in queue program) compared byte for byte "
+        "(replies, exit status, bytes on the queue program's descriptors 0 and 1) with the compiled models over every exit status 0..255, sizes around databytes, hops 97..102, address lengths 0..1030 "
+        "(every length around 256/900/1000/1024) in every role, NULs, every byte value 0..255 alone and inside longer strings in each of HELO/EHLO argument, TCPREMOTEHOST/IP/INFO, TCPLOCALHOST/IP, "
+        "every cut point and every single-byte substitution of short sessions, write faults, random mutated sessions; by a real-queue leg in which the same daemons talk to the unmodified qmail-queue.c on a private "
+        "queue directory (clean sessions, cuts, envelopes over 1024 bytes with the flush boundary swept over every position of a recipient record followed by disconnect / NUL / over-long recipient / broken framing) "
+        "and 'queued' is read off the queue directory; and by a fourth harness running the real datetime_tai/date822fmt on about 260000 instants "
         "(every day 1968..2106, leap/century/era boundaries out to both ends of the supported range, negative and huge values, UBSan just outside the range); the oracle (strict netstring grammar, reference decoder, "
-        "independent calendar and hop count, qmail-queue.8 classes) is evaluated on the implementation's behaviour.",
-   note=NOTE_COMMON + "Modelled, not verified: the queue program honours qmail-queue.8 (exit 0 only after a complete envelope; custom text starts with D/Z), pipes do not short-write, read chunking (4 chunkings run). "
+        "independent safe set and field grammar, independent calendar and hop count, qmail-queue.8 classes, commit only after a complete envelope) is evaluated on the implementation's behaviour; a session on which "
+        "ASan/UBSan stops the daemon is replayed on an uninstrumented build of the same harness and reported with what that build answered and queued.",
+   note=NOTE_COMMON + "Modelled, not verified: on the stand-in legs the queue program honours qmail-queue.8 (exit 0 only after a complete envelope; custom text starts with D/Z) - the real-queue leg checks 'commit => complete envelope, exit 0' "
+        "on the real qmail-queue.c for the streams the daemons produce (crash/fault atomicity of qmail-queue is C01); pipes do not short-write, read chunking (4 chunkings run); the real qmail-queue is drained at exit (it goes away after the daemon closed the pipes). "
         "Also proved: on ack the queue program received exactly Received ++ decoded body and the envelope of the acknowledged sender/recipients (C07_content_*), and no proper prefix of a complete message/request/DATA gets to qmail_close or a reply (C07_cut_*). "
-        "Not theorems (oracle + correspondence only): the SMTP command part, rcpthosts, date822fmt for negative years. datetime_tai's yday is one too large from March on in 1900/2100/... (proved exactly; the field is unused). "
+        "Not theorems (oracle + correspondence only): the SMTP command part (incl. how the HELO argument is cut out of the command line, and that no other 2xx line follows DATA: stray-ack oracle), rcpthosts, date822fmt for negative years; "
+        "the reply-selection theorems C07_*_ack, C07_qmtp_rcpt_reply (first conjunct), C07_qmtp_rcpt_policy and C07_cut_before_from are unfoldings of definitions, the property clauses are the composed theorems named above. "
+        "The hop count follows the code's prefix rule (a header line BEGINNING with received/delivered counts, whatever follows). datetime_tai's yday is one too large from March on in 1900/2100/... (proved exactly; the field is unused). "
         "QMTP replies still buffered in the 256-byte ssout are lost when the daemon exits on a later protocol violation (modelled; the oracle accounts for replies cut inside one message). "
         "One open finding is reported as KNOWN-FINDING (unvalidated exit-82 text); the qmtpd recipient-length digit check is repaired (e90aa72).",
-   technique="Lean 4 proof (buffer/prefix invariants, NUL-pair invariant of the envelope, decide over the regenerated switch table lifted to all statuses, Mealy machine = line-based specification by induction over the stream, calendar arithmetic by omega over the SSA form of datetime_tai) + whole-program differential correspondence with fault injection",
+   technique="Lean 4 proof (buffer/prefix invariants, NUL-pair invariant of the envelope, decide over the regenerated switch table and the regenerated safe-character table, inversion of the parser cascades against an independent strict grammar, induction over the connection with a lost-or-dead invariant of the reply buffer, Mealy machine = line-based specification by induction over the stream, "
+        "comment-depth automaton over the concatenated field, calendar arithmetic by omega over the SSA form of datetime_tai) + whole-program differential correspondence with fault injection, against a stand-in and against the real qmail-queue",
    design="DESIGN.md §2 C07")
 CHECKS["C08"] = dict(
    text="Theorems over ALL configurations and ALL command sequences / byte streams about the Lean model of qmail-smtpd's transaction logic (commands() line reader, "
@@ -272,20 +286,28 @@ CHECKS["C18"] = dict(
         "byte, nothing after 'x'), and every path ever unlinked is intd/N, mess/(N mod split)/N resp. intd/N, todo/N of a validated request or such an old pid/ entry; over a whole spawn "
         "session (any chunking, interleaving, file-system behaviour) the oracle predicate opensOK holds: every open is the message id of a complete command of the input (independent "
         "grammar) and is digits and non-leading '/', spawn() happens only directly after the open of a regular queue-owned file, in the slot and with the sender and recipient of a command "
-        "naming it, any other open is followed by one Z report; reports = complete commands and no child is left; the report reader keeps dline <= REPORTMAX, and over a whole stream the "
+        "naming it, any other open is followed by one Z report; reports = complete commands received before the end of input and no slot is left in use, for every session including EOF on "
+        "descriptor 0 at any point with deliveries in flight and children reaped (select interrupted by SIGCHLD) any number of wake-ups before the EOF on their pipe is read; at every point "
+        "reports + slots in use = commands received, so the exit test of the main loop (end of input and no slot in use, a reaped but unreported slot counting as in use) implies exactly one "
+        "report per command, and after it no event has any effect (the exit point is compared with the real program's); the report reader keeps dline <= REPORTMAX, every log line for a delivery "
+        "carries at most REPORTMAX-2 bytes of report text (oracle truncOK, for every byte stream and hence every read() chunking; REPORTMAX-3 plus the fixed sentence for an expired message), and over a whole stream the "
         "records it marks equal those of a declarative reference reader (writer's grammar delnum-text-NUL, first report for a delivery in flight decides) and form a sub-multiset of the "
         "deliveries in flight, each by the single byte D. Per-step case analyses that restate the guards of one model function (tied to the code by trace replay, not by an invariant): "
         "one status per request, canonical decimal N < 2^64 of a 7..100-byte 'foop/'/'todo/' request, no spawn for a non-regular or foreign-owned file, reports + running children +1 per "
-        "command and preserved by child exit/output, a child's report body is a fixed text or a letter plus pieces of the child's own output, out-of-range/unused delivery numbers "
+        "command and preserved by child exit/output, a reaped child keeps its slot and the EOF on its pipe writes exactly one report with the stored wait status, a child's report body is a fixed "
+        "text or a letter plus pieces of the child's own output, out-of-range/unused delivery numbers "
         "ignored, a report in flight frees that slot and marks at most its own record. Tied to the current source by a translator for every report text/table/constant and by "
-        "running the real code (sanitised build, system calls incl. the pid/ directory scripted, fork-free) against the compiled models on 2.6 M (quick) exhaustive and random cases with the property "
-        "oracles evaluated on the implementation's traces.",
+        "running the real code (sanitised build, system calls incl. the pid/ directory, select/SIGCHLD/EOF orders and read() sizes scripted, fork-free) against the compiled models on 2.6 M (quick) "
+        "exhaustive and random cases (incl. every sequence of up to 4 (thorough 5) end-of-input/reap/pipe-EOF/exit events after a first command, reports of REPORTMAX-14..REPORTMAX+2110 text bytes in "
+        "reads of 1, 2, 3, 7, 1023, 1024, 2047, 2048 and random sizes) with the property oracles evaluated on the implementation's traces.",
    note=NOTE_COMMON + "Modelled, not verified: system-call outcomes (unlink/open/fstat/pipe/fork results, now(), the listing and access times of pid/) are inputs; OOM, write errors to the parent, "
-        "EINTR, negative time_t and the child side after fork are not exercised; the multiset of delivery numbers over a session and the bounce half of sendOK are checked by the oracle only. "
+        "EINTR on read/write (select returning -1 after SIGCHLD is scripted), several descriptors ready in one select wake-up, negative time_t and the child side after fork are not exercised; the "
+        "multiset of delivery numbers over a session and the bounce half of sendOK are checked by the oracle only; the length of a bounce record is compared with the model's (same text as the "
+        "log line) but has no oracle bound of its own; the split of the log into lines is done by the driver. "
         "cleanuppid's unlinks of pid/<name> older than 36 h are part of the model and of the oracle since the audit repair (before, the harness made opendir fail and the claim 'never any other path' "
         "silently excluded them). The step-based reader refMarks shares the model's framing and serves only as proof bridge; the stated reference is the declarative one. "
         "The heap over-read this check found in qmail-rspawn.c report() is fixed (9e1dfcc); the pre-fix code is a detected mutant.",
-   technique="Lean 4 proof (validation cascades, decimal round trip, framing-automaton invariant = independent grammar, per-event balance invariants, step-based = declarative reader) + translator for report tables + exhaustive/structured differential correspondence of three real programs",
+   technique="Lean 4 proof (validation cascades, decimal round trip, framing-automaton invariant = independent grammar, per-event balance invariants incl. end of input and two-step child death, exit test as model predicate, log-line text bound, step-based = declarative reader) + translator for report tables + exhaustive/structured differential correspondence of three real programs",
    design="DESIGN.md §2 C18")
 CHECKS["C19"] = dict(
    text="Theorems (59, no sorry) about the Lean model Nq.Pop3 of qmail-pop3d.c/maildir.c/prioq.c/commands.c and qmail-popup.c, over ALL stored messages, command streams and maildirs. "
@@ -413,25 +435,40 @@ CHECKS["C01"] = dict(
 CHECKS["C16"] = dict(
    text="Theorems (1) over ALL interleavings of any number of injectors with the daemon (inductive invariant of the Lean acceptor of the trigger protocol: link todo, open/write/close of the FIFO vs "
         "trigger_set's close/reopen, opendir, readdir): whenever the daemon is outside a todo scan and an injector has completed its publish-then-signal steps for an unprocessed entry, the trigger descriptor is "
-        "readable; otherwise a re-arm is in progress or the open scan will still return the entry; trigger_set precedes opendir and link precedes the pull; BOUNDED-STEPS LIVENESS: from any state satisfying the "
-        "invariant every run of the daemon's own steps (no injector step, no 25-minute timer, any readdir order) of length 2*|todo|+3 has processed the entry (strictly decreasing measure; bound attained), and the "
-        "daemon is never blocked while a completed injection is unprocessed; (2) about the Lean transcription of qmail-send.c main()'s whole select preparation (wakeup = recent+SLEEP_FOREVER, pass_selprep, "
-        "todo_selprep, cleanup_selprep, comm/del/trigger descriptor sets, tv_sec, loop condition) as a function of a snapshot of the daemon's globals: C16_no_spin - timeout = 0 IFF a pass has a free slot, a todo or "
-        "cleanup scan is in progress or a due time has been reached; otherwise 0 < timeout = wakeup-recent+SLEEP_FUZZ where wakeup is EXACTLY the minimum of recent+SLEEP_FOREVER and the due times the daemon can act on "
-        "(never past its earliest due event by more than the fuzz, never for nothing); a select that does not sleep (timeout 0 or a watched descriptor ready) is always followed by a *_do that passes its guards, and a "
-        "sleep is only requested when none would act (the exit-time pqfail/pqdone exception is stated); complement theorem for a pre-1970 clock. Tied to the code by running the real qmail-queue (2 instances), "
-        "qmail-send and qmail-clean as threads under an in-memory POSIX simulator with every interleaving of the trigger-related system calls enumerated for one injector and enumerated/sampled for two (both readdir "
-        "semantics), each trace replayed through the acceptor (oracle: never sleeps with a completed injection unprocessed; processed within the proved bound), and by reading the real daemon's globals inside every "
-        "select() of these runs and of ~650/22000 daemon scenarios (deliveries, deferrals, bounce failures, faults, TERM with deliveries in flight, crashes, restarts): ~0.85M/18M selects whose timeout and descriptor sets "
-        "must equal the model's (DISAGREE) and satisfy the theorem's predicates evaluated on the implementation's values (ORACLE). The select(timeout 0) spin oracle over the C03 histories is kept.",
-   note=NOTE_COMMON + "Modelled, not verified: FIFO semantics of DESIGN.md 1.4 as implemented by harness/sim.c; the periodic rescan is outside the trigger model on purpose; times are unbounded integers (no overflow of "
-        "datetime_sec); the snapshot read inside select() is what the *_selprep functions saw (they do not write the globals they read); bodyActs states that a *_do function gets past its guards - what it then does "
-        "belongs to C03/C04/C15; nfds is covered by correspondence only. Observation (not a violation, clock before 1970 only): `*wakeup = 0` is the literal epoch, so with recent < 0 the daemon would sleep -recent+1 s "
-        "with work pending (C16_pre_epoch).",
-   technique="Lean 4 proof (inductive invariant over unbounded interleavings; decreasing measure for bounded-steps liveness; exact-minimum characterisation of the select timeout) + systematic schedule enumeration of the real "
-             "programs under a simulated libc, traces replayed through the acceptor, + state snapshots of the running daemon at every select compared with the model and judged by the theorem's predicates",
+        "readable; otherwise a re-arm is in progress or the open scan will still return the entry. The orderings 'trigger_set precedes opendir', 'link precedes the pull' and 'readdir returns every entry present at "
+        "opendir before NULL' are ACCEPTOR GUARDS (C16_order, C16_scan_complete restate them): assumptions about the programs, validated by replaying every enumerated trace of the real programs through the "
+        "acceptor, not proved consequences. BOUNDED-STEPS LIVENESS for daemon-only suffixes: from any state satisfying the invariant every run of the daemon's own steps (no injector step, no 25-minute timer, any "
+        "readdir order) of length 2*|todo|+3 has 'processed' the entry, i.e. readdir has returned its name and handed it to todo_do (strictly decreasing measure; bound attained), and the daemon is never blocked "
+        "while a completed injection is unprocessed; complement C16_rescan_backstop for what lies beyond (a failed scan start or a failure after readdir): select never sleeps beyond nexttodorun and the body at "
+        "nexttodorun passes todo_do's guard without a pull, so such an entry waits at most SLEEP_TODO; (2) about the Lean transcription of qmail-send.c main()'s whole select preparation (wakeup = "
+        "recent+SLEEP_FOREVER, pass_selprep, todo_selprep, cleanup_selprep, comm/del/trigger descriptor sets, tv_sec, loop condition) as a function of a snapshot of the daemon's globals: C16_no_spin - timeout = 0 IFF "
+        "a pass has a free slot, a todo or cleanup scan is in progress or a due time has been reached; otherwise 0 < timeout = wakeup-recent+SLEEP_FUZZ where wakeup is EXACTLY the minimum of recent+SLEEP_FOREVER and "
+        "the due times the daemon can act on; C16_never_past_any_queued - the same over ALL entries of pqchan[]/pqfail/pqdone (not only the heap roots the code reads), under the premise that every root is a minimum "
+        "of its queue (discharged for C15's model of prioq.c by C16_roots_of_heap; checked on the implementation's arrays); a select that does not sleep (timeout 0 or a watched descriptor ready) is always followed "
+        "by a *_do that passes its guards, and a sleep is only requested when none would act (the exit-time pqfail/pqdone exception is stated); complement theorem for a pre-1970 clock. Tied to the code by running "
+        "the real qmail-queue (2 instances), qmail-send and qmail-clean as threads under an in-memory POSIX simulator with every interleaving of the trigger-related system calls enumerated for one injector and "
+        "enumerated/sampled for two (both readdir semantics), each trace replayed through the acceptor (DISAGREE on a rejected event or when the simulator's FIFO readiness differs from the acceptor's; oracle: the "
+        "statement of C16_no_lost_wakeup evaluated in Lean on the real descriptor at every idle select, never sleeps with a completed injection unprocessed, name returned by readdir within the proved bound), and by "
+        "reading the real daemon's globals and the full contents of its four priority queues at the moment select() is entered, in these runs and in ~975/37000 daemon scenarios (deliveries, deferrals, bounce "
+        "failures, faults, TERM with deliveries in flight, crashes, clean restarts; deferred queues of 3-6 messages with distinct due times and entries leaving/returning; SIGALRM/SIGHUP/SIGTERM interrupting a select "
+        "(EINTR) at selects drawn from the whole run and swept over every idle select with messages queued): ~0.97M/47M selects whose timeout and descriptor sets must equal the model's on the snapshot (DISAGREE - also "
+        "catches globals rewritten after the *_selprep calls) and satisfy the theorems' predicates evaluated on the implementation's values, 'earliest due event' being the minimum over everything queued (ORACLE). The "
+        "select(timeout 0) spin oracle over the C03 histories is kept.",
+   note=NOTE_COMMON + "Modelled, not verified: FIFO semantics of DESIGN.md 1.4 as implemented by harness/sim.c; the `dEnd` guard assumes readdir does not skip entries while the daemon itself unlinks todo/ entries in "
+        "the middle of a scan (exercised on sim.c only); the periodic rescan is outside the trigger model on purpose; fault paths are outside the property's quantifier and outside the trigger model: an opendir "
+        "failure after trigger_set() (pull consumed, no scan) and every return/goto fail after readdir (todo/n stays, no wake-up pending) leave the entry to the next pull or the 25-minute rescan "
+        "(C16_rescan_backstop bounds that wait; the pull->scan oracle skips scenarios with injected faults); liveness (C16_bounded, C16_bounded_run) is for daemon-only suffixes - across interleaved injector steps "
+        "the measure can grow and no bound is claimed (the driver's budget is renewed by every injector step); an injector stopped between write and close keeps the FIFO readable across re-arms, so the daemon "
+        "rescans continuously (true of the real code as well: 'no busy loop' is proved for the timeout, not for the trigger path under a stuck writer; the scheduler's fairness bound cuts that branch); not "
+        "modelled: the HASNAMEDPIPEBUG1 variant of trigger.c (daemon also holds a write descriptor), open_read failing inside trigger_set (fd = -1: FIFO unwatched until the next re-arm), a daemon restart in the "
+        "middle of a scan in the trigger model (restarts are exercised in the daemon scenarios only); times are unbounded integers (no overflow of datetime_sec); the snapshot is read inside select(), after "
+        "everything the loop does before blocking - a rewrite of the globals that is undone again before select() would not be seen; a select interrupted by a signal is modelled as handler, partial timeout, EINTR, "
+        "no descriptor event consumed; bodyActs states that a *_do function gets past its guards - what it then does belongs to C03/C04/C15; nfds is covered by correspondence only. Observation (not a violation, "
+        "clock before 1970 only): `*wakeup = 0` is the literal epoch, so with recent < 0 the daemon would sleep -recent+1 s with work pending (C16_pre_epoch).",
+   technique="Lean 4 proof (inductive invariant over unbounded interleavings; decreasing measure for bounded-steps liveness; exact-minimum characterisation of the select timeout over everything queued) + systematic "
+             "schedule enumeration of the real programs under a simulated libc, traces replayed through the acceptor, + state snapshots (globals and full priority-queue contents) of the running daemon at every "
+             "select, with signals interrupting selects, compared with the model and judged by the theorems' predicates",
    design="DESIGN.md §2 C16, Appendix C")
-
 CHECKS["C05"] = dict(
   text="Theorems over ALL byte streams about the Lean model dblast of qmail-smtpd.c blast(): the 5-state automaton equals a line-based RFC 5321 reference decoder (verdict, stored bytes, unread remainder); accepted iff CRLF-terminated LF-free non-lone-dot lines followed by .CRLF; a bare LF is refused (451); decode(encode m)=m for a reference conforming sender and for this package's own client; the hop scanner equals a line-based hop count (C05_hops*). Chunking independence (C05_chunking, _anyscript, _ssin, _indep, _roundtrip): the blast() loop composed with the substdio input model (substdio_get(&ssin,&ch,1) over any buffer size, any pre-buffered bytes, every read script incl. short reads, refills and failing reads) computes dblast of the concatenated stream and leaves in ssin exactly the bytes after the terminator - for every split of the stream into network reads. Tied to the current source by running the real blast() over the real ssin/saferead/substdi.c (sanitised build of the working tree) against the compiled models on every string over {CR,LF,'.',x} up to length 9/12 (also followed by a terminator and next command), every such string up to length 5/8 at every offset across the 1024-byte buffer refill, hop-counter header sets, random streams, and 1-5 KiB streams each under read plans 1/2/1023/1024/1025/full/mixed/random short reads/pre-buffered/failing read; compared on verdict, stored bytes, consumed count, hops, final ssin.p/ssin.n and number of read() calls; oracles on the implementation's behaviour = reference decoder, line-based hop count, and chunk-independence (every split of a stream gives the same result).",
   note=NOTE_COMMON + "Modelled, not verified: the substdio model is value-level (buffer = list of unread bytes; the array x and the byte_copyr shift of substdio_feed are tied only by correspondence: real substdio under 1023/1024/1025/mixed/random read plans with p/n/read-count comparison, and C20's harness); die_alarm is not distinguished from die_read; timeouts are not injected; qmail_put/databytes are outside C05.",
